@@ -398,6 +398,9 @@ func (w *World) sessData(s *MSess, body []byte, final bool, declared string, o c
 	sentAt := w.now()
 	r := w.do(reqSpec{method: method, path: path, query: q.Encode(), hdr: hdr, body: body, pieces: o.pieces, sleepMs: o.sleepMs,
 		abort: o.abort, abortAt: o.abortAt, repos: []string{repo}, noBody: body == nil})
+	if r.lastBody.After(sentAt) {
+		sentAt = r.lastBody // (the server stores a piece after it got it)
+	}
 	if r.Panicked {
 		return r
 	}
@@ -428,6 +431,13 @@ func (w *World) sessData(s *MSess, body []byte, final bool, declared string, o c
 			}
 		}
 		return r
+	}
+	if r.bodyGap > 0 && mustAlive0 && r.bodyGap <= w.k.grace() && !r.lastBody.IsZero() {
+		// a session is in use whenever a piece of a body arrives (both stores look it up for every write): one that was
+		// alive when the request was sent and never waited a grace period for the next piece is as good as just used
+		if lu := r.lastBody.Add(-r.bodyGap); lu.After(s.lastUse) {
+			s.lastUse = lu
+		}
 	}
 	w.abortedReq = o.abort
 	handled := w.handleLiveness(s, r, what)
@@ -739,7 +749,10 @@ func (w *World) opBlobPush(op Op) {
 			}
 			co := chunkOpts{sleepMs: 0}
 			if op.B > 0 {
-				co.pieces = []int{op.B}
+				// the body arrives in pieces of B bytes
+				for n := 0; n < c && len(co.pieces) < 16; n += op.B {
+					co.pieces = append(co.pieces, op.B)
+				}
 			}
 			if op.Ms > 0 && i == 0 {
 				co.sleepMs = op.Ms
